@@ -13,9 +13,9 @@ import lib
 INVARIANTS = ["Totality", "SearchExact", "SearchMonotone", "AfterExact", "YearNear", "CalendarOK"]
 
 # family -> (N quick, N thorough)
-BOUNDS = {"cmd": (4, 5), "doc": (2, 2), "search": (3, 4), "after": (4, 5), "year": (2, 2)}
-NVAR = {"quick": {"cmd": 2, "doc": 3, "search": 1, "after": 3, "year": 2},
-        "thorough": {"cmd": 3, "doc": 8, "search": 2, "after": 6, "year": 6}}
+BOUNDS = {"cmd": (4, 5), "doc": (2, 2), "search": (3, 4), "after": (4, 5), "year": (2, 2), "mixed": (2, 2)}
+NVAR = {"quick": {"cmd": 2, "doc": 3, "search": 1, "after": 3, "year": 2, "mixed": 1},
+        "thorough": {"cmd": 3, "doc": 8, "search": 2, "after": 6, "year": 6, "mixed": 4}}
 NRAND = {"quick": {"cmd": 1500, "doc": 2500, "search": 1500, "after": 3000},
          "thorough": {"cmd": 20000, "doc": 30000, "search": 12000, "after": 40000}}
 
@@ -26,7 +26,8 @@ ASSUMPTIONS = [
     "calendar year the 330-day rule selects (sought, previous or next year; leap sought years included), 29 February "
     "is never rendered without a year; the model's day numbering is cross-checked against datetime.toordinal per call",
     "extra_bad_lines phrases are lower case; JSON noise lines do not start with { or [; a time_format list holds "
-    "formats that all have or all lack a year and cannot be confused with one another; one time stamp per line",
+    "formats that cannot be confused with one another (all with a year, all without, or mixed: then every stamp "
+    "denotes its own moment - explicit year if it has one, inferred year otherwise); one time stamp per line",
     "bounds: exhaustive for the stated numbers of lines / document widths only; larger inputs are seeded random",
 ]
 
@@ -190,7 +191,7 @@ def run(prop, tier):
             kk = key_of(t["fam"], inp)
             if kk not in seen:
                 seen.add(kk)
-                if nontrivial(t["fam"] if t["fam"] != "year" else "after", inp):
+                if nontrivial(t["fam"] if t["fam"] not in ("year", "mixed") else "after", inp):
                     nontriv += 1
     samples = []
     for fam in sorted(BOUNDS):
